@@ -98,6 +98,57 @@ func c05Next(look string) string {
 	}
 }
 
+// c05Answers returns the n scripted answers consumed from position from; answers beyond the
+// script are the model's truthful ones (beyond: what that is, "" = unknown).
+func c05Answers(looks []string, from, n int, beyond string) []string {
+	var out []string
+	for i := from; i < from+n; i++ {
+		if i < len(looks) {
+			out = append(out, looks[i])
+		} else {
+			out = append(out, "unscripted:"+beyond)
+		}
+	}
+	return out
+}
+
+// c05Fold applies the decision table to a sequence of consumed answers. start "?" = the pay call
+// failed or erred and the first answer decides; "L" = locked. The result is the set of states
+// the statement allows afterwards (S and R are absorbing).
+func c05Fold(start string, answers []string) string {
+	set := map[byte]bool{}
+	if start == "?" {
+		set['L'] = true // treated like L: the first answer decides in the same way
+	} else {
+		for i := 0; i < len(start); i++ {
+			set[start[i]] = true
+		}
+	}
+	for _, a := range answers {
+		if strings.HasPrefix(a, "unscripted:") {
+			a = strings.TrimPrefix(a, "unscripted:")
+			if a == "" {
+				return "LSR" // an answer the script does not determine: no verdict
+			}
+		}
+		if !set['L'] {
+			break
+		}
+		delete(set, 'L')
+		nx := c05Next(a)
+		for i := 0; i < len(nx); i++ {
+			set[nx[i]] = true
+		}
+	}
+	out := ""
+	for _, c := range []byte("LSR") {
+		if set[c] {
+			out += string(c)
+		}
+	}
+	return out
+}
+
 func c05Observe(env *menv.Env, t *c05tmpl) (abs string, detail string) {
 	p, q, pre, err := env.DBState(t.coin.Secret, t.quote)
 	if err != nil {
@@ -269,6 +320,9 @@ func runC05(r *core.Run) {
 		env.Node.InPay = nil
 		pay := c05Pay[j.pay].name
 		looks := ln
+		// the decision table is applied to the backend answers the code actually consumed, in
+		// order (the statement speaks of what the backend reports, not of how often it is asked)
+		meltUsed := env.Node.StatusLookups(t.hash)
 		allowed := ""
 		switch pay {
 		case "success":
@@ -276,16 +330,17 @@ func runC05(r *core.Run) {
 		case "pending":
 			allowed = "L"
 		default:
-			first := "failed"
-			if pay == "error" {
-				first = "notfound"
+			if meltUsed == 0 {
+				// no lookup after a failed pay call: a definitive failure may release, an error may not
+				allowed = map[string]string{"failed": "LR", "error": "L"}[pay]
+			} else {
+				allowed = c05Fold("?", c05Answers(looks, 0, meltUsed, map[string]string{"failed": "failed", "error": "notfound"}[pay]))
 			}
-			if len(looks) > 0 {
-				first = looks[0]
-				looks = looks[1:]
-			}
-			allowed = c05Next(first)
 		}
+		if meltUsed > len(looks) {
+			meltUsed = len(looks)
+		}
+		looks = looks[meltUsed:]
 		abs, det := c05Observe(env, t)
 		apiState := "err:" + fmt.Sprint(err)
 		if err == nil {
@@ -307,8 +362,9 @@ func runC05(r *core.Run) {
 			viol("melt-preimage", "MeltTokens reported PAID without the payment's preimage")
 		}
 		cur := abs
-		// --- polls
-		for i, look := range looks {
+		// --- polls: one per remaining scripted answer (a poll may consume none or several)
+		idx := 0
+		for i := 0; idx < len(looks) && i < len(j.chans); i++ {
 			before := env.Node.StatusLookups(t.hash)
 			var api string
 			if j.chans[i] == 0 {
@@ -331,18 +387,24 @@ func runC05(r *core.Run) {
 			consumed := env.Node.StatusLookups(t.hash) - before
 			exp := cur
 			if cur == "L" {
-				exp = c05Next(look)
-				if consumed != 1 {
-					viol("poll-did-not-ask-backend", fmt.Sprintf("a %s in state L consumed %d backend lookups, expected 1", api, consumed))
+				if consumed == 0 {
+					// nothing asked: fine while the backend has nothing final to say, but "once the backend
+					// knows the final success or failure the next state poll adopts it"
+					if looks[idx] == "succeeded" || looks[idx] == "failed" {
+						viol("poll-did-not-adopt-final-outcome", fmt.Sprintf("a %s in state L did not ask the backend, which knows the payment has %s", api, looks[idx]))
+					}
+				} else {
+					exp = c05Fold("L", c05Answers(looks, idx, consumed, ""))
 				}
 			} else if consumed != 0 {
-				// S and R are absorbing: no lookups; put the answer back conceptually
-				viol("poll-in-final-state-asked-backend", fmt.Sprintf("poll in state %s consumed %d lookups", cur, consumed))
+				r.Observe("poll-in-final-state-asked-backend", fmt.Sprintf("poll in state %s consumed %d lookups", cur, consumed))
 			}
+			answers := c05Answers(looks, idx, consumed, "")
+			idx += consumed
 			abs, det := c05Observe(env, t)
-			obs = append(obs, fmt.Sprintf("poll#%d(%s) answer=%s -> api=%s persisted=%s (%s) allowed=%s", i, []string{"quote", "proofs"}[j.chans[i]], look, api, abs, det, exp))
+			obs = append(obs, fmt.Sprintf("poll#%d(%s) answers=%v -> api=%s persisted=%s (%s) allowed=%s", i, []string{"quote", "proofs"}[j.chans[i]], answers, api, abs, det, exp))
 			if len(abs) != 1 || !strings.Contains(exp, abs) {
-				viol(fmt.Sprintf("after-poll:from=%s:answer=%s:expected=%s:got=%s", cur, look, exp, abs), fmt.Sprintf("in state %s the backend answered %s; afterwards the state is %s (%s), decision table allows %s", cur, look, abs, det, exp))
+				viol(fmt.Sprintf("after-poll:from=%s:answer=%s:expected=%s:got=%s", cur, strings.Join(answers, "+"), exp, abs), fmt.Sprintf("in state %s the backend answered %v; afterwards the state is %s (%s), decision table allows %s", cur, answers, abs, det, exp))
 				return
 			}
 			wantQ := map[string]string{"L": "quote:PENDING", "S": "quote:PAID", "R": "quote:UNPAID"}[abs]
@@ -350,7 +412,7 @@ func runC05(r *core.Run) {
 			if api != wantQ && api != wantP {
 				viol(fmt.Sprintf("poll-answer:%s", abs), fmt.Sprintf("the poll answered %s although the state it left behind is %s", api, abs))
 			}
-			if cur != "L" {
+			if cur != "L" || consumed == 0 {
 				break // remaining answers cannot be consumed
 			}
 			cur = abs
